@@ -72,6 +72,11 @@ def load_nl(ctx, model, cfg):
     rel, nF = NL[model]
     env = dict(ctx.kernels.extra_env)
     w0x, w0t = (imperfection(ctx, 'w0x'), imperfection(ctx, 'w0t')) if cfg.get('imperfect') else (zero_imperfection, zero_imperfection)
+    if cfg.get('mgi'):
+        # the package's own imperfection series (imperfections/mgi.pyx) with orders (m0, n0) and symbolic coefficients
+        G = cysym.Module(os.path.join(REPO, 'compmech/conecyl/imperfections/mgi.pyx'),
+                         env={k: v for k, v in ctx.kernels.extra_env.items() if k not in ('cfw0x', 'cfw0t')}).ns
+        w0x, w0t = G['cfw0x'], G['cfw0t']
     env.update({'integratev': one_point_integrator(ctx), 'trapz_wp': None, 'cfw0x': w0x, 'cfw0t': w0t, 'coo_matrix': ShimCOO})
     src = open(os.path.join(REPO, rel)).read()
     for mm in re.finditer(r'^from\s+([\w\.]+)\s+cimport\s+(.+)$', src, re.M):
@@ -142,6 +147,10 @@ def build(cfg, values=None):
             cc.F = F
             cc.ni_num_cores, cc.ni_method, cc.nx, cc.nt = 1, 'trapz2d', 1, 1
             cc.c0, cc.m0, cc.n0 = c0, 0, 0
+            if cfg.get('mgi'):
+                m0_, n0_ = cfg['mgi']
+                cc.m0, cc.n0, cc.funcnum = m0_, n0_, 2
+                cc.c0 = np.array([V('c0_%d' % k) for k in range(2 * m0_ * n0_)], dtype=object)
             cc._rebuild()
             cc.k0 = ShimCSR(sym_matrix('k0', size, list(range(size)), V, symmetric=True))
             ex = sorted(cc.excluded_dofs)
@@ -217,16 +226,19 @@ def job_chunks(_):
             def cb(k, xs, ys, out, alphas, betas, args=None):
                 for q in range(int(k)):
                     seen[int(xs[q])] += 1
-            M.ns['trapz2d_points'] = pts
-            out = _np.zeros(1)
-            try:
-                M.ns['integratev'](cb, 1, cysym.Ptr(out), 0., 1., 1, 0., 1., 1, None, cores, 'trapz2d')
-            except Exception as e:
-                bad.append((npts, cores, '%s: %s' % (type(e).__name__, e)))
-                continue
-            n += 1
-            if npts and not (seen[:npts] == 1).all():
-                bad.append((npts, cores, 'coverage counts %s' % seen[:npts].tolist()))
+            for method in ('trapz2d', 'simps2d'):
+                seen[:] = 0
+                M.ns['trapz2d_points'] = pts if method == 'trapz2d' else None
+                M.ns['simps2d_points'] = pts if method == 'simps2d' else None
+                out = _np.zeros(1)
+                try:
+                    M.ns['integratev'](cb, 1, cysym.Ptr(out), 0., 1., 1, 0., 1., 1, None, cores, method)
+                except Exception as e:
+                    bad.append((npts, cores, method, '%s: %s' % (type(e).__name__, e)))
+                    continue
+                n += 1
+                if npts and not (seen[:npts] == 1).all():
+                    bad.append((npts, cores, method, 'coverage counts %s' % seen[:npts].tolist()))
     return {'runs': n, 'bad': bad[:10]}
 
 
@@ -293,6 +305,8 @@ def configs(tier, seed):
             for pd in ((True, True, True), (False, False, True)) if quick else ((True, True, True), (False, False, True), (True, False, True), (False, True, True)):
                 out.append({'variant': 'api', 'model': model, 'mn': (2, 2, 1), 'cone': True, 'pd': pd, 'group': 'ConeCyl.kTuu=d calc_fint/dcu:%s:pd=%s' % (model, ''.join('1' if x else '0' for x in pd)),
                             'm': 2, 'n': 1, 'timeout_ms': 600000})
+            out.append({'variant': 'api', 'model': model, 'mn': (2, 2, 1), 'cone': True, 'pd': (True, True, True), 'mgi': (2, 3), 'group': 'ConeCyl.kTuu=d calc_fint/dcu:%s:imperfection-series-2x3' % model,
+                        'm': 2, 'n': 1, 'timeout_ms': 600000})
         if not quick:
             out.append({'variant': 'jacobian', 'model': model, 'mn': (3, 2, 2), 'cone': True, 'group': 'tangent=jacobian:%s:cone-322' % model, 'm': 3, 'n': 1, 'timeout_ms': 1200000})
     out[0]['canary'] = True
@@ -331,7 +345,7 @@ def main():
         if not ce <= set(sym_fail[m]) or (sym_fail[m] and not ce):
             run.harness_error('compiled %s deviates in entries %s, the symbolic run of the source in %s' % (m, sorted(ce)[:8], sym_fail[m][:8]))
     ch = job_chunks(None)
-    run.extra['integratev_chunking'] = {'executions': ch['runs'], 'range': 'npts 0..64 x num_cores 1..8', 'method': 'bounded execution of the de-Cythonised integratev with a recording callback (enumeration, not a solver query)',
+    run.extra['integratev_chunking'] = {'executions': ch['runs'], 'range': 'npts 0..64 x num_cores 1..8 x {trapz2d, simps2d}', 'method': 'bounded execution of the de-Cythonised integratev with a recording callback (enumeration, not a solver query)',
                                         'failures': ch['bad']}
     if ch['bad']:
         run.violation('integratev/chunking', 'integratev does not hand every point to the callback exactly once: %s' % (ch['bad'][:3],), ch)
